@@ -563,7 +563,7 @@ theorem C13_file_fail_exit (env : Env) (enum : List String → List String) (pre
   apply failDupsLoop_fail
   unfold rawReports pathReports
   simp only [hfiles]
-  exact List.mem_append.2 (Or.inl (List.mem_append.2 (Or.inl (foldl_collectStep_split env enum pre post p _ _ hf))))
+  exact List.mem_append.2 (Or.inl (List.mem_append.2 (Or.inl (failMixed_fail _ _ (foldl_collectStep_split env enum pre post p _ _ hf)))))
 
 /-- A raising decorator hook (duplicate ids, duplicated function objects) turns the whole file into one
 failed report. -/
@@ -571,6 +571,46 @@ theorem C13_raise_is_fail (env : Env) (enum : List String → List String) (w w1
     (htf : env.cfg.isTaskFile path = true) (hi : importPath env w path = (w1, some m))
     (hd : decoratorReports enum w1 path = (w2, none)) : (collectFile env enum w path).2 = [Report.fail] := by
   simp [collectFile, htf, Generated.collectFileOrder, collectFileStep, hi, hd]
+
+/-! ## Functions handed over through `build(tasks=[…])` -/
+
+/-- one iteration of `_collect_from_tasks` (fixed code, 21cea5f): whatever metadata the function carries — none,
+markers only (`try_first`, `persist`, `skipif`, a user marker), or the `task` mark — it yields a report. -/
+theorem ptaskReport_some (i : Nat) (pt : PTask) :
+    ptaskReport i pt = some (if pt.mixedPrio then Report.fail else Report.succ pt.file pt.name (0, i)) := by
+  unfold ptaskReport PTask.wraps
+  simp only [Generated.Col.ptaskWrapWhen]
+  cases pt.marked <;> simp
+
+/-- **C13_ptasks_total** (true since fix 21cea5f, F31). Every task function handed to `build(tasks=[…])` — the `k`-th
+of the list, with or without `@task`, with or without other markers — is collected under `(get_file(fn), name)`,
+or, if it cannot be (mixed priorities), a failed report stands in its place: none is silently dropped. -/
+theorem C13_ptasks_total : ∀ (pts : List PTask) (i k : Nat) (pt : PTask), pts[k]? = some pt →
+    (ptaskReports i pts)[k]? = some (if pt.mixedPrio then Report.fail else Report.succ pt.file pt.name (0, i + k)) := by
+  intro pts
+  induction pts with
+  | nil => intro i k pt h; simp at h
+  | cons x rest ih =>
+    intro i k pt h
+    unfold ptaskReports
+    rw [ptaskReport_some]
+    cases k with
+    | zero => simp at h; subst h; simp
+    | succ k' =>
+      simp at h
+      have := ih (i + 1) k' pt h
+      simp only [Option.toList, List.cons_append, List.nil_append, List.getElem?_cons_succ]
+      rw [this, show i + 1 + k' = i + (k' + 1) by omega]
+
+theorem C13_ptasks_length (pts : List PTask) (i : Nat) : (ptaskReports i pts).length = pts.length := by
+  induction pts generalizing i with
+  | nil => rfl
+  | cons x rest ih => unfold ptaskReports; rw [ptaskReport_some]; simp [ih]
+
+/-- the F31 witness (a function that only carries `try_first`, no `@task`) is collected; one with both priorities fails. -/
+example : (ptaskReports 0 [{ file := ["e", "progmod.py"], name := "work", tag := 1, hasMeta := true },
+                           { file := ["e", "progmod.py"], name := "both", tag := 2, hasMeta := true, mixedPrio := true }]).map Report.key
+    = [some (["e", "progmod.py"], "work"), none] := by decide
 
 /-- Non-vacuity: a helper module's `@task` function is left over → exit 3; a duplicate id → exit 3. -/
 def leftEnv : Env :=
